@@ -643,6 +643,9 @@ Definition expect_rd (V : view) (i : rd_ix) (ms : list meta) : list (N * key) :=
   | RInitializeSwapDestination => [(0, KRdConfig); (2, KRdSwapAuth); (3, KTok2z KRdSwapAuth); (4, KMint); (5, KToken)]
   | RSweep =>
       let sp := match config_of (vget V (k 0)) with Some c => c_swap_program c | None => default_key end in
+      (* a sweep with zero collectible debt returns before it reads (or trusts) the swap and token accounts *)
+      let zero := match dist_of (vget V (k 1)) with Some (d, _) => collectible d =? 0 | None => false end in
+      if zero then [(0, KRdConfig); (2, KRdJournal)] else
       [(0, KRdConfig); (2, KRdJournal); (6, sp); (7, KTok2z (k 1)); (8, KRdSwapAuth); (9, KTok2z KRdSwapAuth)]
   | RWithdrawSol _ =>
       let sp := match config_of (vget V (k 0)) with Some c => c_swap_program c | None => default_key end in
